@@ -217,6 +217,11 @@ boost::optional<ndsize_t> getSampledIndex(const double position, const double of
     if (idx < 0.0) {
         idx = 0.0;
     }
+    // an estimate of 2^53 or more (or an overflowed quotient) cannot be corrected in steps of one - the loops below would
+    // never end - and converting it to ndsize_t may be undefined: there is no index for such a position
+    if (!(idx < 9007199254740992.0)) {
+        return index;
+    }
     while (idx > 0.0 && position_at(idx) > position) {
         idx -= 1.0;
     }
